@@ -181,6 +181,10 @@ func (i *IndexSnapshotTermFieldReader) Advance(ID index.IndexInternalID, preAllo
 			}
 		}
 	}
+	if len(i.snapshot.offsets) == 0 {
+		// a snapshot without segments has nothing at or after any target
+		return nil, nil
+	}
 	num := ID.Value()
 	segIndex, ldocNum := i.snapshot.segmentIndexAndLocalDocNumFromGlobal(num)
 	if segIndex >= len(i.snapshot.segment) {
